@@ -3,10 +3,12 @@ CONSTANTS
  Groups = {"g","g:t"}
  ColonNames = {"t:u","g:t"}
  SlashNames = {}
+ PercentNames = {}
+ DeadVariants = {3}
  MaxParts = 2
- Offs = {0,1}
- Metas = {"","m"}
- Variants = {1,2}
+ Offs = {1}
+ Metas = {"m"}
+ Variants = {1}
  TimeoutVariants = {1}
  CfgVariants = {1}
  ToolNames = {"fetch_offsets"}
@@ -21,6 +23,9 @@ CONSTANTS
  DevFetchDefaultZero = FALSE
  DevCommitUnchecked = FALSE
  DevToolWrites = FALSE
+ DevToolReaps = FALSE
+ DevEscapeFastPath = FALSE
+ DevEtcdDeletePrefix = FALSE
 INIT Init
 NEXT NextStore
 INVARIANTS C17_SameObs
